@@ -9,6 +9,7 @@ package c20
 import (
 	"encoding/json"
 	"fmt"
+	"github.com/massnetorg/mass-core/wire"
 	"os"
 	"path/filepath"
 	"sort"
@@ -43,29 +44,42 @@ type Scn struct {
 	// channel operations, wait groups and blocking locks only ("[fast]" in the name). Used
 	// with a higher preemption bound on the longer scenarios. "[deep]": thorough tier only.
 	Fast bool `json:"fast"`
+	// FailCommit > 0: the FailCommit-th wallet-database commit of the explored part reports a
+	// storage error (once): the real worker() / handle() decide what happens next. At
+	// quiescence everything announced and accepted must still have been done.
+	FailCommit int `json:"fail_commit"`
 }
 
 // Scenarios is the scenario list (histories x stop placement).
 var Scenarios = []Scn{
-	{"remove+2tips+stop", "remove", false, 2, true, 0, 0, false},
-	{"remove+stop", "remove", false, 0, true, 0, 0, false},
-	{"import+2tips+stop", "import", false, 2, true, 0, 0, false},
-	{"import+stop", "import", false, 0, true, 0, 0, false},
-	{"resume-remove+stop", "remove", true, 0, true, 0, 0, false},
-	{"resume-import+1tip+stop", "import", true, 1, true, 0, 0, false},
-	{"2tips+stop", "none", false, 2, true, 0, 0, false},
-	{"remove+2tips", "remove", false, 2, false, 0, 0, false},
-	{"import+2tips", "import", false, 2, false, 0, 0, false},
-	{"resume-remove+1tip", "remove", true, 1, false, 0, 0, false},
-	{"resume-import+1tip", "import", true, 1, false, 0, 0, false},
+	{"remove+2tips+stop", "remove", false, 2, true, 0, 0, false, 0},
+	{"remove+stop", "remove", false, 0, true, 0, 0, false, 0},
+	{"import+2tips+stop", "import", false, 2, true, 0, 0, false, 0},
+	{"import+stop", "import", false, 0, true, 0, 0, false, 0},
+	{"resume-remove+stop", "remove", true, 0, true, 0, 0, false, 0},
+	{"resume-import+1tip+stop", "import", true, 1, true, 0, 0, false, 0},
+	{"2tips+stop", "none", false, 2, true, 0, 0, false, 0},
+	{"remove+2tips", "remove", false, 2, false, 0, 0, false, 0},
+	{"import+2tips", "import", false, 2, false, 0, 0, false, 0},
+	{"resume-remove+1tip", "remove", true, 1, false, 0, 0, false, 0},
+	{"resume-import+1tip", "import", true, 1, false, 0, 0, false, 0},
 	// multi-batch imports (stop between two steps of an import; queue pressure while a task
 	// that is queued again after every batch is running)
-	{"import3+stop [batch]", "import", false, 0, true, 1, 0, false},
-	{"import3+1tip [batch]", "import", false, 1, false, 1, 0, false},
-	{"import3+1tip+stop [batch][fast][deep]", "import", false, 1, true, 1, 0, true},
-	{"import3+3tasks [batch][fast]", "import", false, 0, false, 1, 3, true},
-	{"import3+3tasks+stop [batch][fast][deep]", "import", false, 0, true, 1, 3, true},
-	{"resume-import3+1tip+stop [batch][fast][deep]", "import", true, 1, true, 1, 0, true},
+	{"import3+stop [batch]", "import", false, 0, true, 1, 0, false, 0},
+	{"import3+1tip [batch]", "import", false, 1, false, 1, 0, false, 0},
+	{"import3+1tip+stop [batch][fast][deep]", "import", false, 1, true, 1, 0, true, 0},
+	{"import3+3tasks [batch][fast]", "import", false, 0, false, 1, 3, true, 0},
+	{"import3+3tasks+stop [batch][fast][deep]", "import", false, 0, true, 1, 3, true, 0},
+	{"resume-import3+1tip+stop [batch][fast][deep]", "import", true, 1, true, 1, 0, true, 0},
+	// a storage error reported to the worker / the follower in the middle of their work: the
+	// worker's and the follower's own retry logic runs (no stop request: liveness oracle)
+	{"import3+fault@2 [batch]", "import", false, 0, false, 1, 0, false, 2},
+	{"import3+fault@3 [batch]", "import", false, 0, false, 1, 0, false, 3},
+	{"import+1tip+fault@2", "import", false, 1, false, 0, 0, false, 2},
+	{"remove+fault@2", "remove", false, 0, false, 0, 0, false, 2},
+	{"remove+fault@3", "remove", false, 0, false, 0, 0, false, 3},
+	{"remove+1tip+fault@4", "remove", false, 1, false, 0, 0, false, 4},
+	{"2tips+fault@1", "none", false, 2, false, 0, 0, false, 1},
 }
 
 type Opts struct {
@@ -91,6 +105,12 @@ var seq int
 // bases holds, per scenario, the world frozen at the point where the explored part starts
 // (built once per worker process; every execution runs on a fork, see world.Base).
 var bases = map[string]*world.Base{}
+
+// lateTips holds, per fault scenario, one more block that is already in the chain database but
+// is announced only after the explored part went quiet: a block whose processing reported a
+// storage error is caught up when the NEXT tip arrives (C18), so the liveness oracle of a
+// fault scenario is evaluated after one more announcement.
+var lateTips = map[string]*wire.MsgBlock{}
 
 func baseFor(sc Scn, dir string) (*world.Base, error) {
 	if b := bases[sc.Name]; b != nil {
@@ -136,6 +156,14 @@ func baseFor(sc Scn, dir string) (*world.Base, error) {
 			return nil, fmt.Errorf("tip %d: %v %v", i, ok, err)
 		}
 	}
+	if sc.FailCommit > 0 {
+		if ok, err := w.Apply("x.e"); err != nil || !ok {
+			return nil, fmt.Errorf("late tip: %v %v", ok, err)
+		}
+		q := w.N.Queue
+		lateTips[sc.Name] = q[len(q)-1].Block
+		w.N.Queue = q[:len(q)-1]
+	}
 	b, err := w.Freeze()
 	if err != nil {
 		return nil, err
@@ -176,6 +204,10 @@ func runOnce(sc Scn, prefix []int) (*vshim.Result, *sched.Exec, error) {
 	closesBefore := 0
 	if seam != nil {
 		closesBefore = seam.Closes
+		if sc.FailCommit > 0 {
+			// counted from here: the commits of opening the database are not part of the scenario
+			seam.Plan.FailCommit = seam.Commits + sc.FailCommit
+		}
 	}
 	x := &sched.Exec{}
 	var apiErr, startErr error
@@ -261,6 +293,11 @@ func runOnce(sc Scn, prefix []int) (*vshim.Result, *sched.Exec, error) {
 		}
 		out["api_err"] = fmt.Sprint(apiErr)
 	} else if !r.Deadlock && len(r.Abnormal) == 0 && !r.HorizonHit {
+		if late := lateTips[sc.Name]; late != nil {
+			// fault scenario: the node announces one more tip (default schedule), then the oracle
+			vshim.Continue(func() { vshim.Go("late-node", func() { w.I.W.VerifOnBlockConnected(late) }) })
+			out["injected"] = seam.Injected
+		}
 		// liveness at quiescence: everything announced was processed, every accepted task finished
 		qb, qt, tk := w.I.W.VerifQueueLens()
 		if qb != 0 || qt != 0 || tk > 0 {
